@@ -27,6 +27,8 @@
 (*    the acknowledged address is still assigned to an attached interface in the cloud;                 *)
 (*  - a pod whose DEL was inside its handler when the daemon was killed (or when another pod asked) is  *)
 (*    not owed its address; neither is a pod that is gone from the node and the API;                    *)
+(*  - "the container ID recorded at the pod's latest successful ADD" is the one in the daemon's record, *)
+(*    also when the reply of that ADD never reached the runtime (a DEL of that sandbox is effective);   *)
 (*  - GC may delete on the strength of its own API answers (not in the local list + existence check    *)
 (*    said no) or when the pod really is gone; a sticky pod need not be kept for an extra period;      *)
 (*  - "within two passes" counts only passes during which nothing changed and no API call failed.      *)
